@@ -20,6 +20,9 @@ func init() {
 
 func runC17(c *Ctx, r *Report) {
 	info := c.fit.TypesInfo
+	// which fields are coordinates is a fact of the profile table: held against the generator outputs of
+	// the bundled earlier SDK versions
+	kindHistory(c, r, "C17-R6-coordinate-kind-history", map[int]bool{3: true, 4: true}, "a coordinate is decoded as a plain sint32 (or a latitude as a longitude, which skips the ±90° range rule), and Encode writes it the same wrong way")
 	sent, okS := c.constInt(c.fit, "sint32Invalid")
 	r.check(okS && sent == 0x7FFFFFFF, "C17-R1-sentinel", "sint32Invalid", "", "0x7FFFFFFF", fmt.Sprintf("sint32Invalid is %#x, the sint32 invalid value is 0x7FFFFFFF", sent))
 
